@@ -1045,6 +1045,92 @@ def M_f64_is_sign_positive(it, ctx, args, st):
     yield st, z3.fpIsPositive(args[0])
 
 
+
+# ------------------------------------------------------------------ str / String slicing (Index<Range*>), with the real panics
+def is_char_boundary(s, i):
+    """i == len, or the byte at i is not a UTF-8 continuation byte"""
+    b = bstr_byte(s, i)
+    return z3.Or(i == s.len, i == 0, z3.Not(z3.And(z3.UGE(b, 0x80), z3.ULE(b, 0xbf))))
+
+
+def M_str_index_range(it, ctx, args, st):
+    s = sval(st, args[0])
+    r = args[1]
+    kind = last_seg(ctx.trait[2][0][1])
+    if kind == 'Range':
+        a, b = r.fields[0], r.fields[1]
+    elif kind == 'RangeFrom':
+        a, b = r.fields[0], s.len
+    elif kind == 'RangeTo':
+        a, b = bv(0), r.fields[0]
+    elif kind == 'RangeFull':
+        yield st, args[0]
+        return
+    else:
+        raise Unsupported('str index with ' + kind)
+    ok = z3.And(z3.ULE(a, b), z3.ULE(b, s.len), is_char_boundary(s, a), is_char_boundary(s, b))
+    for s2, good in fork_bool(it, st, ok):
+        if good:
+            yield s2, s2.ref(bstr_slice(s, a, b))
+        else:
+            yield s2, Panic('byte index out of range / not a char boundary in str slice', ctx.fr.fn.name)
+
+
+# ------------------------------------------------------------------ format_args! / format!  (compact template encoding of rustc >= 1.89)
+def M_fmt_argument(it, ctx, args, st):
+    kind = ctx.callee.segs[-1][0]
+    yield st, Agg('FmtArg', (kind, ctx.gargs[0] if ctx.gargs else None, args[0]))
+
+
+def M_fmt_arguments_new(it, ctx, args, st):
+    yield st, Agg('FmtArguments', (args[0], args[1] if len(args) > 1 else None))
+
+
+def render_display(it, ctx, ty, v, st):
+    """Display text of a value as a BStr; only what the repository formats with {}"""
+    val = st.deref_all(v) if isinstance(v, Ptr) else v
+    if isinstance(val, BStr):
+        return val
+    if isinstance(val, Agg) and len(val.fields) >= 1 and isinstance(val.fields[0], BStr) and ty is not None and last_seg(strip_refs(ty)[1]) in ('String', 'str'):
+        return val.fields[0]
+    raise Unsupported(f'Display of {ty_str(ty) if ty else "?"} inside format! is not modelled')
+
+
+def M_fmt_format(it, ctx, args, st):
+    fa = args[0]
+    tmpl = bstr_py(sval(st, fa.fields[0]))
+    if tmpl is None:
+        raise Unsupported('format! with a symbolic template')
+    argv = st.deref_all(fa.fields[1]).items if fa.fields[1] is not None else ()
+    out = bstr(b'')
+    i = 0
+    nexta = 0
+    while i < len(tmpl):
+        b = tmpl[i]
+        if b == 0:
+            break
+        if b < 0x80:
+            out = bstr_concat(out, bstr(tmpl[i + 1:i + 1 + b]))
+            i += 1 + b
+        elif b == 0xc0:
+            a = argv[nexta]
+            nexta += 1
+            if a.fields[0] != 'new_display':
+                raise Unsupported('format! argument kind ' + a.fields[0])
+            out = bstr_concat(out, render_display(it, ctx, a.fields[1], a.fields[2], st))
+            i += 1
+        else:
+            raise Unsupported(f'format! template opcode {b:#x}')
+    yield st, out
+
+
+def M_fmt_arguments_from_str(it, ctx, args, st):
+    s = sval(st, args[0])
+    py = bstr_py(s)
+    if py is None or len(py) > 127:
+        raise Unsupported('Arguments::from_str')
+    yield st, Agg('FmtArguments', (st.ref(bstr(bytes([len(py)]) + py + b'\0')), None))
+
 P = r'(?:std|core|alloc)::'
 OPT = P + r'option::Option::<.*>::'
 RES = P + r'result::Result::<.*>::'
@@ -1068,7 +1154,8 @@ MODELS = [
     (P + r'str::<impl str>::as_bytes', M_str_as_bytes), (P + r'str::<impl str>::trim_end_matches::<char>', M_trim_end_matches_char),
     (P + r'str::<impl str>::contains::<char>', M_str_contains_char),
     (P + r'str::<impl str>::parse::<.*>', M_str_parse), (P + r'str::<impl str>::chars', M_chars),
-    (r'<str as ' + P + r'cmp::PartialEq>::eq', M_str_eq), (r'<str as ' + P + r'cmp::PartialEq>::ne', M_str_ne),
+    (r'<&*(?:' + P + r'string::String|str) as ' + P + r'cmp::PartialEq(<&*(?:' + P + r'string::String|str)>)?>::eq', M_str_eq),
+    (r'<&*(?:' + P + r'string::String|str) as ' + P + r'cmp::PartialEq(<&*(?:' + P + r'string::String|str)>)?>::ne', M_str_ne),
     (r'<&?str as ' + P + r'cmp::PartialEq(<&?str>)?>::eq', M_str_eq),
     (r'<' + P + r'string::String as ' + P + r'cmp::PartialEq(<.*>)?>::eq', M_str_eq),
     (r'<str as ' + P + r'(string::ToString|borrow::ToOwned)>::(to_string|to_owned)', M_to_owned_str),
@@ -1118,6 +1205,13 @@ MODELS = [
     (P + r'f64::<impl f64>::is_sign_negative|' + P + r'num::<impl f64>::is_sign_negative', M_f64_is_sign_negative),
     (P + r'f64::<impl f64>::is_sign_positive|' + P + r'num::<impl f64>::is_sign_positive', M_f64_is_sign_positive),
     (r'<[iu](?:8|16|32|64|128|size) as ' + P + r'clone::Clone>::clone|<bool as ' + P + r'clone::Clone>::clone', M_clone),
+    (r'<(?:&.*|' + P + r'(?:option::Option|result::Result|vec::Vec|string::String|boxed::Box|collections::\w+)<?.*>?) as ' + P + r'clone::Clone>::clone', M_clone),
+    (r'<' + P + r'option::Option<.*> as ' + P + r'cmp::PartialEq>::eq', M_prim_eq), (r'<' + P + r'option::Option<.*> as ' + P + r'cmp::PartialEq>::ne', M_prim_ne),
     (P + r'mem::drop::<.*>', M_unit),
+    (r'<(?:' + P + r'string::String|str) as ' + P + r'ops::Index<' + P + r'ops::Range\w*(<usize>)?>>::index', M_str_index_range),
+    (P + r'fmt::rt::Argument::<.*>::new_\w+::<.*>|' + P + r'fmt::rt::Argument::new_\w+::<.*>', M_fmt_argument),
+    (P + r'fmt::Arguments::<.*>::new::<.*>|' + P + r'fmt::Arguments::new::<.*>', M_fmt_arguments_new),
+    (P + r'fmt::Arguments::<.*>::from_str(_nonconst)?|' + P + r'fmt::Arguments::from_str(_nonconst)?', M_fmt_arguments_from_str),
+    (P + r'fmt::format', M_fmt_format), (P + r'hint::must_use::<.*>', M_identity),
     (P + r'convert::identity::<.*>', M_identity),
 ]
